@@ -11,7 +11,8 @@ from vf.ref import refeval as R
 
 ID = 'C04'
 LEVEL = 'exploration'
-RULE = ('enumerated: four fixed small models (chain of 3, diamond, range '
+RULE = ('A fixed model whose ranges have HOLES (addresses that are no cells until a set creates them).  '
+        'enumerated: four fixed small models (chain of 3, diamond, range '
         'whose members are formulas, two-sheet chain) x EVERY history of '
         'length <= 4 (thorough 5) over the alphabet {set(i, v) for each '
         'input i and two values v, eval(c) for each cell c, get(c), '
